@@ -11,17 +11,44 @@ from ..core import Case
 
 ID = 'C03'
 MANIFEST = {
-    'text': 'placeholder',
-    'note': 'placeholder',
+    'text': ('Block-manager transparency. Coq (unbounded in rows, columns, layouts, keys, shifts, histories; Properties/C03.v): every block-walking '
+             'operation modelled as M_op on a block layout refines its specification S_op on the flattened column list, hence is layout independent: '
+             'column selection (C03_select_columns_layout_independent), per-block cellwise maps isna/notna/unary/scalar operators/astype '
+             '(C03_map_blocks_refines), the directory read routes axis_values/column/element (C03_axis_values_refines, C03_column_refines, '
+             'C03_element_refines), consolidation (C03_consolidate_flatten, _groups = maximal equal-dtype runs, _canonical, _maximal), append/extend '
+             'histories (C03_extend_directory), row dtype over blocks = over columns (C03_row_dtype_layout_independent, with util.resolve_dtype and '
+             'TypeBlocks._cols_to_slice REGENERATED from /repo and proved equal to their typed forms: C03_resolve_dtype_translated, '
+             'C03_cols_to_slice_translated), values and transpose (C03_values_refines, C03_transpose_refines, C03_rows_of_transposes), roll with the '
+             'split of the start block (C03_roll_refines), constructor coherence (C03_frame_coherent, C03_frame_rejects), agreement of the read routes '
+             '(C03_readers_agree, C03_to_pairs_refines); fillna/dropna under the guards that make their per-block decisions unobservable. '
+             'Correspondence through the public interface: EVERY block layout of the enumerated column-dtype sequences (<= 4 columns quick, <= 5 thorough), '
+             '0-row and 0-column frames included; ~440-570 single-frame public operations per frame compared layout-vs-canonical-layout (labels, '
+             'per-column values, per-column dtypes, error class); read routes values/iloc/loc/iter_element/iter_array/iter_series/to_pairs against the '
+             'columns the frame was built from; result BLOCKS of the modelled operations against M (exact output layout) and result columns against S.'),
+    'note': ('trusted: Coq kernel, py2v translator (resolve_dtype, _cols_to_slice), the np.result_type oracle of SF/Dtype.v, the cell-level NumPy '
+             'parameters of the models (cell functions, cast, roll of one column), harness. Partial: operations without a block-level model '
+             '(assign, drop, mask, sort, reindex, reductions, binary operators between frames, ...) are covered by the layout-vs-layout comparison only; '
+             '8 known finding classes (known/C03.jsonl) where the unchanged code IS layout/history dependent or fails on 0-sized frames; '
+             'Refuted/C03.v holds the model-level witnesses. Keys with repeated integers are outside (unobservable through Frame: labels are unique).'),
+    'technique': 'refinement M_op(layout) = S_op(flatten layout) + exhaustive layout enumeration, metamorphic layout-vs-canonical comparison',
 }
 PROPERTY_FILES = ['Properties/C03.v']
 REFUTED_FILES = ['Refuted/C03.v']
 MODEL_FILES = ['SF/BlocksOps.v', 'SF/BlocksOpsVal.v']
-TRANSLATED = []
+TRANSLATED = ['resolve_dtype', 'cols_to_slice']
 IMPORTS = 'Require Import SF.Prelude SF.PySlice SF.Dtype SF.Value SF.Blocks SF.BlocksOps SF.BlocksOpsVal.'
-RULE = 'placeholder'
-ASSUMPTIONS = []
-EXHAUSTIVE = {'quick': True, 'thorough': True}
+RULE = ('frames: a fixed list of column-dtype sequences (kinds i=int64 h=int16 f=float64 with NaN g=float64 b=bool U=<U2 O=object with None M=datetime64[D]) '
+        'x row counts, plus a seeded random stream of other sequences; for each, EVERY block layout of sfv.zoo.layouts_for (all compositions into blocks, '
+        'every width-1 block as 1-D and as 2-D) is built from the SAME columns. Strata: api:layout-vs-canonical (one case per layout x public operation: '
+        'canonical observable equal to that of the all-1-D layout; replay: build(kinds, rows, layout) then dict(ops_for(kinds, rows))[op]); api:readers '
+        '(shape/len coherence, every cell by 13 read routes, directory and element reads incl. out-of-range probes against M and S); model:* (result blocks == M '
+        'on the observed input blocks, result columns == S on the logical columns); kernel:append-extend (incremental directory); api:history-vs-direct '
+        '(FrameGO grown by columns vs built at once); api:malformed-constructor. Non-trivial: the canonical result is not an exception / the frame is not 0-sized / '
+        'the layout has more than one block; distinct = distinct (frame, layout, operation, argument).')
+ASSUMPTIONS = ['Python int = Z', 'np.result_type as modelled by SF.Dtype.np_result_type (oracle)',
+               'NumPy applies a ufunc / astype / row key / np.roll(axis=0) to every column of a block alike (cell functions are parameters of the models)',
+               'datetime/timedelta units ps/fs/as and structured dtypes are outside the model']
+EXHAUSTIVE = {'quick': True, 'thorough': True}     # layouts of every enumerated frame: complete; operations/arguments: a fixed list
 
 
 # ----------------------------------------------------------------------------- the frame zoo
@@ -278,6 +305,16 @@ def ops_for(kinds, n, full=True):
     add('op:add-series-partial', lambda f: f + sf.Series((1, 2), index=('b', 'zz')))
     add('op:add-array-row', lambda f: f + np.arange(m))
     add('op:mul-array2d', lambda f: f * np.arange(n * m).reshape(n, m))
+    # the same logical frame in another layout as the second operand: block-compatible / reblock / values paths
+    others = {'canon': build(kinds, n, canonical_layout(m))}
+    lays = layouts(kinds, n)
+    others['packed'] = build(kinds, n, min(lays, key=len))             # fewest blocks
+    for oname, g in others.items():
+        add(f'op:f+{oname}', lambda f, g=g: f + g)
+        add(f'op:{oname}-f', lambda f, g=g: g - f)
+        add(f'op:f=={oname}', lambda f, g=g: f == g)
+        add(f'op:f<{oname}', lambda f, g=g: f < g)
+        add(f'equals:{oname}', lambda f, g=g: (f.equals(g), g.equals(f), f.equals(g, compare_dtype=True), f.to_frame_he() == g.to_frame_he()))
     add('op:self+self', lambda f: f + f)
     add('op:self==self', lambda f: f == f)
     add('op:self-T', lambda f: f - f.T)
@@ -534,15 +571,19 @@ def short(o, limit=160):
 
 # ----------------------------------------------------------------------------- frame spaces
 QUICK_KINDS = ['', 'i', 'f', 'U', 'O', 'b', 'ii', 'if', 'fO', 'UU', 'iii', 'iif', 'UUf', 'bbO', 'iiff', 'iUUi']
-THOROUGH_KINDS = QUICK_KINDS + ['bb', 'fii', 'iiii', 'ifif', 'OOii', 'M', 'h', 'OO', 'gg', 'hhi', 'MMi', 'ggi', 'bib', 'ffff', 'fiib', 'UUUU', 'hhgg',
-                                'iiiii', 'iifff', 'iUUUi', 'ffOOb', 'hhhgg', 'ifbUO', 'OOOOO']
+THOROUGH_FRAMES = (
+    [(k, (0, 1, 2, 3, 4)) for k in ['', 'i', 'f', 'U', 'O', 'b', 'M', 'h']]
+    + [(k, (0, 1, 3)) for k in ['ii', 'if', 'fO', 'UU', 'bb', 'OO', 'gg', 'hi']]
+    + [(k, (1, 3)) for k in ['iii', 'iif', 'fii', 'UUf', 'bbO', 'hhi', 'MMi', 'ggi', 'bib']]
+    + [('iiii', (0, 1, 3))] + [(k, (1, 3)) for k in ['iiff', 'iUUi', 'OOii']] + [(k, (3,)) for k in ['ifif', 'ffff', 'fiib', 'hhgg']]
+    + [('iiiii', (3,)), ('iifff', (3,)), ('ifbUO', (1,))])
 MODEL_KINDS = frozenset('ihgfbU')        # cells / conversions the Coq cell functions cover
 ALL_KINDS = 'ihgfbUOM'
 
 
 QUICK_FRAMES = [('', (0, 1, 3)), ('i', (0, 1, 3)), ('f', (0, 1, 3)), ('U', (0, 2)), ('O', (1, 3)), ('ii', (0, 1, 3)), ('if', (0, 1, 3)),
                 ('UU', (1, 3)), ('fO', (0, 2)), ('iii', (1, 3)), ('iif', (0, 2)), ('bbO', (1, 3)), ('iiff', (1, 3)), ('iUUi', (0, 2)),
-                ('iiii', (3,))]
+                ('hi', (2,)), ('iiii', (3,))]
 
 
 def frame_space(ctx):
@@ -551,8 +592,8 @@ def frame_space(ctx):
             for n in rows:
                 yield kinds, n
     else:
-        for kinds in THOROUGH_KINDS:
-            for n in (0, 1, 2, 3, 4):
+        for kinds, rows in THOROUGH_FRAMES:
+            for n in rows:
                 yield kinds, n
     # random stream of other dtype mixes / sizes (all layouts of each)
     for _ in range(ctx.n(2, 12)):
@@ -580,11 +621,14 @@ def layouts(kinds, n):
 
 
 # ----------------------------------------------------------------------------- strata
+_TAGS = {}
+
+
 def layout_cases(ctx, kinds, n):
     """Metamorphic stratum: every operation on every layout against the same operation on the canonical layout."""
     m = len(kinds)
     canon = canonical_layout(m)
-    ops = ops_for(kinds, n, full=(ctx.tier != 'quick'))
+    ops = ops_for(kinds, n, full=(ctx.tier != 'quick' and m <= 3))
     fc = build(kinds, n, canon)
     ref = {name: observe(fn, fc) for name, fn in ops}
     for lay in layouts(kinds, n):
@@ -595,6 +639,8 @@ def layout_cases(ctx, kinds, n):
             raise AssertionError(f'zoo built {zoo.layout_of(f)} instead of {lay}')
         ls = zoo.layout_str(lay)
         ctx.count(f'layout:m={m}', f'layout:blocks={len(lay)}', f'rows={n}')
+        shared = {'kinds': kinds, 'rows': n, 'layout': ls, 'op': 'every operation of ops_for(kinds, rows) -- see the case key',
+                  'replay': f"from sfv.props.c03 import build, ops_for; f = build({kinds!r},{n},{lay!r}); g = build({kinds!r},{n},{canon!r}); compare op(f) with op(g)"}
         for name, fn in ops:
             o = observe(fn, f)
             r = ref[name]
@@ -605,13 +651,20 @@ def layout_cases(ctx, kinds, n):
             py_fail = None
             if o != r:
                 py_fail = (f'{name} on layout {ls} gives {short(o)}; on the all-1-D layout of the same columns it gives {short(r)}')
-            tags = {'stratum': 'layout', 'family': fam}
             fid = finding_for(name, kinds, n, lay)
-            if fid:
-                tags['finding'] = fid
-            yield Case('api:layout-vs-canonical',
-                       {'replay': f"from sfv.props.c03 import build, ops_for; dict(ops_for({kinds!r},{n}))[{name!r}](build({kinds!r},{n},{lay!r}))  # vs layout {canon!r}",
-                        'kinds': kinds, 'rows': n, 'layout': ls, 'op': name, 'observed': short(o, 100)},
+            tags = _TAGS.get((fam, fid))
+            if tags is None:
+                tags = {'stratum': 'layout', 'family': fam}
+                if fid:
+                    tags['finding'] = fid
+                _TAGS[(fam, fid)] = tags
+            if py_fail or fid:
+                desc = {'kinds': kinds, 'rows': n, 'layout': ls, 'op': name, 'observed': short(o, 100),
+                        'replay': (f"from sfv.props.c03 import build, ops_for; dict(ops_for({kinds!r},{n}))[{name!r}](build({kinds!r},{n},{lay!r}))"
+                                   f"  # compare with build({kinds!r},{n},{canon!r})")}
+            else:      # one shared description per frame x layout (memory); the operation is in the case key
+                desc = shared
+            yield Case('api:layout-vs-canonical', desc,
                        py_fail=py_fail, tags=tags, nontrivial=(r[0] != 'X'),
                        key=f'L|{kinds}|{n}|{ls}|{name}')
 
@@ -962,13 +1015,17 @@ def malformed_cases(ctx):
             return sf.Frame(tb, index=range(n + di), columns=range(m + dc), own_data=True)
         T = tb_lit(zoo.blocks_from_columns(cols, lay) if m else [])
         txt, r = res_lit(make, lambda f: 'tt')
-        idx = lit.lst(['tt'] * (n + di))
-        cl = lit.lst(['tt'] * (m + dc))
+        # an EMPTY index / columns argument means "not given": the constructor creates the default one of the blocks' size
+        idx = lit.lst(['tt'] * ((n + di) or n))
+        cl = lit.lst(['tt'] * ((m + dc) or m))
+        bad = None
+        if not isinstance(r, Exception):
+            if r.shape != (len(r.index), len(r.columns)) or r._blocks.shape != r.shape or r.values.shape != r.shape:
+                bad = f'accepted an incoherent Frame: shape {r.shape}, index {len(r.index)}, columns {len(r.columns)}, blocks {r._blocks.shape}'
         yield Case('api:malformed-constructor',
                    {'replay': f'sf.Frame(TypeBlocks.from_blocks(layout {zoo.layout_str(lay)} of {kinds!r} x {n} rows), index=range({n + di}), columns=range({m + dc}))', 'observed': txt},
                    m=f'res_eqb (fun _ _ => true) (res_map (fun _ => tt) (mk_frame_checked (L:=unit) {idx} {cl} {T} {n})) {txt}',
-                   py_fail=None if isinstance(r, Exception) else 'a Frame whose index/columns length differs from its blocks was accepted',
-                   tags={'stratum': 'malformed'}, key=f'X|{kinds}|{n}|{zoo.layout_str(lay)}|{di}|{dc}')
+                   py_fail=bad, tags={'stratum': 'malformed'}, key=f'X|{kinds}|{n}|{zoo.layout_str(lay)}|{di}|{dc}')
     # blocks with different row counts
     for a, b_ in ((2, 3), (0, 1), (3, 0)):
         ctx.count('malformed')
